@@ -330,7 +330,8 @@ def values_integer(n):
 @cond('C06.values.literals', quick=240,
       bounds='literal spellings parsed by both parsers as a target: decimals in fixed notation (palette, 0..4 places, leading / '
              'trailing dot forms), every date of 2019-2020 with day in {1, 15, 28..31}, TRUE / FALSE / NULL in every letter case '
-             'pattern, lists of 1..3 literals incl. trailing comma and NULL members',
+             'pattern, lists of 1..3 literals incl. trailing comma and repeated / equal-but-distinct members (NULL members are not expressible: the '
+             'grammar gives an empty list element and a NULL literal the same meaning, both parsers drop them)',
       symbolic='(none)', enumerated='literal (selector), letter-case bits', params={'k': int, 'c0': bool, 'c1': bool, 'c2': bool,
                                                                                      'c3': bool, 'c4': bool})
 def values_literals(k, c0, c1, c2, c3, c4):
@@ -355,7 +356,8 @@ LITERALS = ([('dec', t, D(t)) for t in ('0.0', '1.5', '.5', '5.', '12345.678', '
             [('date', d.isoformat(), d) for d in _date_literals()[::7]] +
             [('word', 'TRUE', True), ('word', 'FALSE', False), ('word', 'NULL', None)] +
             [('list', '(1, 2)', [1, 2]), ('list', '(1,)', [1]), ("list", "('a', 2.5, 2020-01-01)", ['a', D('2.5'), datetime.date(2020, 1, 1)]),
-             ('list', '(1, TRUE)', [1, True])] +
+             ('list', '(1, TRUE)', [1, True]), ('list', '(1, 1, 2)', [1, 1, 2]), ('list', '(2.50, 2.5)', [D('2.50'), D('2.5')]),
+             ('list', "('a', 'a')", ['a', 'a']), ('list', '(0, FALSE, 0)', [0, False, 0])] +
             [('int', '0', 0), ('int', '007', 7), ('int', '12345678901234567890', 12345678901234567890)])
 
 
@@ -370,6 +372,8 @@ def _literal_check(k, bits):
     got = shipped.targets[0].expression
     if got != ast.Constant(value) or type(got.value) is not type(value):
         return f'literal-value: {text}'
+    if kind == 'list' and [repr(x) for x in got.value] != [repr(x) for x in value]:
+        return f'list-elements: {text}'
     if derived != shipped:
         return f'shipped-parser-differs-from-grammar: {text}'
     return 'ok'
